@@ -35,6 +35,7 @@ def main(argv):
     ap.add_argument("prop")
     ap.add_argument("--tier", default=os.environ.get("VERIF_TIER", "quick"), choices=["quick", "thorough"])
     ap.add_argument("--replay", default=None)
+    ap.add_argument("--emit-digests", default=None, help="(self-test) N,K: print run digests of the first N jobs with K variants")
     args = ap.parse_args(argv)
     import warnings
 
@@ -54,6 +55,16 @@ def main(argv):
     if want != got:
         print(f"HARNESS-ERROR pyimpspec imported from {got}, expected {want}", file=sys.stderr)
         return 2
+    if args.emit_digests:
+        import json
+        n, k = (int(x) for x in args.emit_digests.split(","))
+        if hasattr(mod, "main"):
+            from simkit import histsim
+            print(json.dumps(histsim.emit_digests(mod.machine, args.tier, n, k)))
+        else:
+            from simkit import enginea
+            print(json.dumps(enginea.emit_digests(mod, args.tier, n, k)))
+        return 0
     try:
         if hasattr(mod, "main"):
             return mod.main(args.tier, args.replay)
